@@ -751,6 +751,9 @@ def module_attr(eng, modname, attr):
         if eng.repo.has_const(modname, attr):
             return Conc(eng.repo.const(modname, attr))
         raise Unsupported("module attribute %s.%s" % (modname, attr))
+    if modname == "re" and attr in ("IGNORECASE", "I", "MULTILINE", "DOTALL", "VERBOSE", "ASCII"):
+        import re as _re
+        return Conc(int(getattr(_re, attr)))
     return Fun("ext", name=modname + "." + attr)
 
 
@@ -1073,6 +1076,10 @@ def bi_isinstance(eng, args, kw, n):
     raise Unsupported("isinstance")
 
 
+def bi_sorted(eng, args, kw, n):
+    return eng.reg.ext_call(eng, "sorted", args, kw, n)
+
+
 def bi_set(eng, args, kw, n):
     if not args:
         return eng.reg.make_set(eng, [])
@@ -1104,6 +1111,21 @@ def iter_concrete(eng, v):
         # symbolic string of known length?  not concrete
         raise Unsupported("iteration over symbolic sequence needs a loop invariant")
     raise Unsupported("iteration over %r" % (c,))
+
+
+def genexp_as_list(eng, g):
+    """materialise `(f(x) for x in L)` over a symbolic sequence as a mapped list (same machinery as a list comprehension)"""
+    import ast as _ast
+    n = _ast.ListComp(elt=g.node.elt, generators=g.node.generators)
+    saved = eng.st.vars
+    merged = dict(g.closure)
+    merged.update(saved)
+    eng.st.vars = merged
+    try:
+        it = eng.ev(g.node.generators[0].iter)
+        return eng.reg.symbolic_comprehension(eng, n, "list", it)
+    finally:
+        eng.st.vars = saved
 
 
 # ---- string methods
